@@ -4,7 +4,8 @@
 // 2 mutations: AddTransition, SetStateFinal, SetStateStart; 4 RemoveUnreachableStates stored into any handle;
 // 8 UnionDisjointStates stored into a handle and Union with translation maps kept in a separate result object;
 // 16 RemoveUselessStates / Reverse stored into any handle), a value-semantics shadow per handle, every handle read back
-// after every step.  The facade has no getters for transitions and final states, so a handle is read through the public
+// after every step.  Results of the trimming operations, Reverse and UnionDisjointStates (language-level contracts) are
+// bounded from below and above by functions of the operand shadows and the value read becomes the shadow (see adopt()).  The facade has no getters for transitions and final states, so a handle is read through the public
 // DumpToString(serializer, stateDict) with a serializer that decodes the AutDescription it is given, and through
 // GetStartStates / GetStartSymbols (for every state).
 // Universe: states 0..NS-1, symbols 0..NSYM-1 (registered in the alphabet as "a", "b", ...).
@@ -149,6 +150,31 @@ static void same(const Aut& a, const Val& v, int id)
   CHECK(got.fin == v.fin, id + 4); CHECK(got.start == v.start, id + 5);
 }
 
+// Result of an operation whose contract is stated on the level of languages (C10: RemoveUnreachableStates, RemoveUselessStates,
+// Reverse, UnionDisjointStates keep / mirror / unite the language): C11 only asks that the result is a function of the operand
+// values and that it stays what it was afterwards.  So the result is *read* and becomes the shadow value of its handle (every
+// later step compares the handle with this snapshot); demanded here is only what every correct implementation yields: nothing
+// invented (got <= hi) and nothing lost that lies on a path from a start state to a final state (lo <= got).  Unreachable or
+// dead states, their transitions and their final / start marks may be kept or dropped.  The start-symbol map of a result is
+// not constrained at all (which entries Reverse / RemoveUselessStates / RemoveUnreachableStates carry over - e.g. entries of
+// states that are no longer start states - is an artefact of the current sources), it is only required to stay what it was read.
+// -DSTRICT_IMPL (never defined by the registry) restores the comparison with the exact structure the current sources build.
+static Val adopt(const Aut& a, Val lo, const Val& hi, const Val& strict, int id)
+{
+  Val got; bool ok = readVal(a, got); CHECK(ok, id + 1);
+#if defined(STRICT_IMPL) && !defined(VS_SELFTEST_2)
+  for (unsigned i = 0; i < NT; ++i) CHECK(got.t[i] == strict.t[i], id + 2);
+  for (unsigned i = 0; i < NST; ++i) CHECK(got.st[i] == strict.st[i], id + 3);
+  CHECK(got.fin == strict.fin, id + 4); CHECK(got.start == strict.start, id + 5);
+#else
+  (void)strict;
+  for (unsigned i = 0; i < NT; ++i) { CHECK(!lo.t[i] || got.t[i], id + 2); CHECK(!got.t[i] || hi.t[i], id + 3); }
+  CHECK((lo.fin & ~got.fin) == 0 && (got.fin & ~hi.fin) == 0, id + 4); CHECK((lo.start & ~got.start) == 0 && (got.start & ~hi.start) == 0, id + 5);
+#endif
+  return got;
+}
+static Val unionOf(const Val& a, const Val& b) { Val r = a; for (unsigned i = 0; i < NT; ++i) r.t[i] = a.t[i] | b.t[i]; for (unsigned i = 0; i < NST; ++i) r.st[i] = a.st[i] | b.st[i]; r.fin = a.fin | b.fin; r.start = a.start | b.start; return r; }
+
 // read the Union result through its translation maps as a pair of values (left part, right part)
 static bool readUnion(Val& L, Val& R)
 {
@@ -202,16 +228,16 @@ static void apply(OpKind op, unsigned i, unsigned j, unsigned a)
     break; }
   case FINAL: h[i]->SetStateFinal(a); val[i].fin |= 1u << a; break;
   case START: h[i]->SetStateStart(a / NSYM, symb[a % NSYM]); val[i].st[a] = true; val[i].start |= 1u << (a / NSYM); break;
-  case UNREACH: { Aut* n = new Aut(h[i]->RemoveUnreachableStates()); Val v = withoutUnreachable(val[i]);
+  case UNREACH: { Aut* n = new Aut(h[i]->RemoveUnreachableStates()); Val lo = withoutUseless(val[i]), hi = val[i];
 #ifdef VS_SELFTEST_2
-    v = val[i];                            // seeded wrong oracle: nothing is removed
+    lo = hi;                               // seeded wrong oracle: nothing is removed
 #endif
-    replace(j, n); val[j] = v; break; }
-  case USELESS: { Aut* n = new Aut(h[i]->RemoveUselessStates()); Val v = withoutUseless(val[i]); replace(j, n); val[j] = v; break; }
-  case REVERSE: { Aut* n = new Aut(h[i]->Reverse()); Val v = reversed(val[i]); replace(j, n); val[j] = v; break; }
+    Val v = adopt(*n, lo, hi, withoutUnreachable(val[i]), 40); replace(j, n); val[j] = v; break; }
+  case USELESS: { Aut* n = new Aut(h[i]->RemoveUselessStates()); Val v = adopt(*n, withoutUseless(val[i]), val[i], withoutUseless(val[i]), 40); replace(j, n); val[j] = v; break; }
+  case REVERSE: { Aut* n = new Aut(h[i]->Reverse()); Val v = adopt(*n, reversed(withoutUseless(val[i])), reversed(val[i]), reversed(val[i]), 40); replace(j, n); val[j] = v; break; }
   case UNIOND:
-    if ((val[i].used() & val[j].used()) == 0) { Aut* n = new Aut(Aut::UnionDisjointStates(*h[i], *h[j])); replace(j, n);
-      for (unsigned x = 0; x < NT; ++x) val[j].t[x] |= val[i].t[x]; for (unsigned x = 0; x < NST; ++x) val[j].st[x] |= val[i].st[x]; val[j].fin |= val[i].fin; val[j].start |= val[i].start; }
+    if ((val[i].used() & val[j].used()) == 0) { Aut* n = new Aut(Aut::UnionDisjointStates(*h[i], *h[j])); Val all = unionOf(val[i], val[j]);
+      Val v = adopt(*n, unionOf(withoutUseless(val[i]), withoutUseless(val[j])), all, all, 50); replace(j, n); val[j] = v; }
     break;
   case UNION: {
     delete ures; delete umapL; delete umapR; umapL = new AutBase::StateToStateMap(); umapR = new AutBase::StateToStateMap();
@@ -271,9 +297,9 @@ extern "C" void harness(void)
     compareAll(100 * (k + 2));
   }
   // ---- an operation repeated after all that activity depends on the value only
-  for (unsigned i = 0; i < NH; ++i) { Aut t = h[i]->RemoveUnreachableStates(); same(t, withoutUnreachable(val[i]), 80); 
+  for (unsigned i = 0; i < NH; ++i) { Aut t = h[i]->RemoveUnreachableStates(); adopt(t, withoutUseless(val[i]), val[i], withoutUnreachable(val[i]), 80);
 #ifdef FINAL_USELESS
-    { Aut u = h[i]->RemoveUselessStates(); same(u, withoutUseless(val[i]), 85); }
+    { Aut u = h[i]->RemoveUselessStates(); adopt(u, withoutUseless(val[i]), val[i], withoutUseless(val[i]), 85); }
 #endif
     same(*h[i], val[i], 90); }
 #ifdef VS_OBSERVE
